@@ -1,7 +1,9 @@
 package main
 
 import (
+	"context"
 	"encoding/json"
+	"net"
 	"net/http"
 	"net/http/httptest"
 
@@ -100,7 +102,17 @@ func encField(set bool, value string, err bool) val.V {
 	return val.L(val.Bool(set), val.S(value), val.Bool(err))
 }
 
+// every case is run twice: a second call with the same input must give what the first gave (nothing may remember)
 func execFields(in val.V) val.V {
+	first := execFieldsOnce(in)
+	second := execFieldsOnce(in)
+	if second.String() != first.String() {
+		return second
+	}
+	return first
+}
+
+func execFieldsOnce(in val.V) val.V {
 	switch in.At(0).Num() {
 	case 0:
 		id, err := sse.NewID(in.At(1).Str())
@@ -109,14 +121,18 @@ func execFields(in val.V) val.V {
 			return val.S("NewID/NewType disagree")
 		}
 		// ID()/Type() panic exactly when New* errors
-		panicked := func() (p bool) {
+		panics := func(f func()) (p bool) {
 			defer func() { p = recover() != nil }()
-			_ = sse.ID(in.At(1).Str())
-			_ = sse.Type(in.At(1).Str())
+			f()
 			return
-		}()
-		if panicked != (err != nil) {
+		}
+		var viaID sse.EventID
+		var viaType sse.EventType
+		if panics(func() { viaID = sse.ID(in.At(1).Str()) }) != (err != nil) || viaID != id {
 			return val.S("ID()/NewID disagree")
+		}
+		if panics(func() { viaType = sse.Type(in.At(1).Str()) }) != (err2 != nil) || viaType != ty {
+			return val.S("Type()/NewType disagree")
 		}
 		return encField(id.IsSet(), id.String(), err != nil)
 	case 1:
@@ -157,6 +173,17 @@ func execFields(in val.V) val.V {
 		sess, err := sse.Upgrade(httptest.NewRecorder(), req)
 		if err != nil {
 			return val.S("upgrade failed")
+		}
+		// the same request as a handler sees it behind net/http's server (the context carries the server's keys) and
+		// behind middleware that rewrote the header after it was parsed: nothing may depend on where a request comes from
+		ctx := context.WithValue(req.Context(), http.ServerContextKey, &http.Server{})
+		ctx = context.WithValue(ctx, http.LocalAddrContextKey, &net.TCPAddr{IP: net.IPv4(127, 0, 0, 1), Port: 80})
+		sess2, err2 := sse.Upgrade(httptest.NewRecorder(), req.WithContext(ctx))
+		if err2 != nil {
+			return val.S("upgrade failed")
+		}
+		if sess2.LastEventID != sess.LastEventID {
+			return encField(sess2.LastEventID.IsSet(), sess2.LastEventID.String(), false)
 		}
 		return encField(sess.LastEventID.IsSet(), sess.LastEventID.String(), false)
 	}
